@@ -417,6 +417,8 @@ class ModelMixin3:
                 s3 = st.copy()
                 outs.append((self.exc('UnicodeDecodeError', s3, node, 'the file is not valid text in the chosen encoding'), s3))
             return outs
+        if name == 'itertools.repeat' and len(args) == 1 and not kwargs:
+            return [(Ref('list', st.new(ListE('repeat', 2, None, items=(args[0],), stages=('itertools.repeat',)))), st)]
         if name == 'itertools.count' and len(args) <= 2 and not kwargs:
             # a counter object: its current value lives in the heap so that next(counter) advances it
             start = args[0] if args else Const(0)
@@ -560,7 +562,19 @@ class ModelMixin3:
                     return [(a0, st)]
                 return [(Ref('list', st.new(ListE('lit', len(a0.items), len(a0.items), items=a0.items, ordered=(name == 'list')))), st)]
             if isinstance(a0, IterV):
-                return [(a0, st)]
+                # list(zip(...)) / list(enumerate(...)): run the iterator now ([v for v in it])
+                xname, vname = '%matxs', '%matx'
+                st.frame.env[xname] = a0
+                gen = ast.comprehension(target=ast.Name(id=vname, ctx=ast.Store()), iter=ast.Name(id=xname, ctx=ast.Load()), ifs=[], is_async=0)
+                comp = ast.ListComp(elt=ast.Name(id=vname, ctx=ast.Load()), generators=[gen])
+                if node is not None:
+                    ast.copy_location(comp, node)
+                ast.fix_missing_locations(comp)
+                outs = self.comprehension(comp, st, 'list')
+                for _, s in outs:
+                    s.frame.env.pop(xname, None)
+                    s.frame.env.pop(vname, None)
+                return outs
             if isinstance(a0, Ref) and a0.kind == 'dict':
                 d = st.get(a0.sym)
                 items = tuple(k for k, _ in d.items)
